@@ -7,6 +7,27 @@ ALL = ["C%02d" % i for i in range(1, 21)]
 
 # id -> (category, level text, level note, technique, design_ref)
 CHECKS = {
+ "C04": ("exploration",
+         "LEF library values over the supported statement subset are generated from a seed and rendered to text by an independent renderer in many lexical forms (statement permutations, whitespace/CRLF, comments incl. non-ASCII, mixed-case keywords, alternative decimal spellings, versions 5.3-5.8, with/without END LIBRARY); LefLibrary::open of each text must return exactly the generated value.",
+         "Trusted base: the renderer in harness/src/gen/lefgen.rs (keyword spellings typed from the LEF reference). Data-model conventions (quotes kept on string literals, antenna-key and PROPERTY-number spelling kept) are not judged.",
+         "runtime monitoring: independent-renderer differential oracle on the reader", "DESIGN.md 3 C04"),
+ "C05": ("exploration",
+         "Every library obtained by reading a generated LEF text (so: in the reader's image, incl. version-inconsistent statements the reader lets through) and the repository's LEF files is written with to_string()/save() and re-read; writing must succeed and the re-read value must be equal.",
+         "Texts the reader rejects or misreads are C04's concern and only counted. lefrw = open+save, executed in-process by the save leg.",
+         "runtime monitoring: write/read round-trip oracle over the reader's image", "DESIGN.md 3 C05"),
+ "C11": ("fault_enumeration",
+         "Fault enumeration on the real LEF reader: every prefix of each seed text (and mid-character cuts), every single-token fault (delete, duplicate, swap, keyword/number/';'/unterminated-string replacement), non-ASCII insertions into names, numbers, strings, comments and line starts, CRLF, noise and size scaling; each execution under a panic guard and hook-counted step budgets (characters, parser steps, error-report scan); accepted inputs must survive to_string -> open without a crash.",
+         "'Time proportional to length' decided as bounded progress on hook counters; wall-clock is a watchdog only. Input reaches the reader through a tmpfs file (only public entry point).",
+         "runtime monitoring: fault injection + panic/step-budget monitors", "DESIGN.md 3 C11"),
+ "C16": ("exploration",
+         "LefLibrary values with integer-raw-unit coordinates (x != y) spelled with 0..6 decimals are imported with LefImporter::import; cell count, names, outline, per-pin and per-layer shapes (by layer name, in LEF order) and every coordinate are compared with value x units-per-micron of the returned library; a coordinate with a fraction of a raw unit must be rejected.",
+         "Importer-documented unsupported features (EXCEPTPGNET, non-zero SPACING, ITERATE, vias) are outside the claim.",
+         "runtime monitoring: exact coordinate oracle over generated LEF values", "DESIGN.md 3 C16"),
+ "C18": ("exploration",
+         "GDSII library values (hostile strings, doubles over the whole range) and LEF library values (hostile string literals) are pushed through SerializationFormat::{Json,Yaml} both as strings and as files and compared (doubles by bit pattern); canonical GDSII byte streams go GDSII -> markup -> GDSII through gds_serialization::{to_markup,from_markup} and must come back byte-identical.",
+         "TOML documented unsupported. CLI binaries are thin wrappers over the library functions exercised. Two open known findings (fixed_mask flags are skip_serializing).",
+         "runtime monitoring: markup round-trip oracle with hostile strings and exact reals", "DESIGN.md 3 C18"),
+
  "C01": ("exploration",
          "Round-trip monitor over executions of the real writer and reader: an exhaustive sweep of element kind x optional-record subset x strans variant x property count, limit probes around the 65535-byte record limit, and seeded random libraries (hostile strings, full i32 coordinates, whole real range) are written with GdsLibrary::write/save and read back with from_bytes/open; the result must be field-for-field equal (reals by bit pattern). Held on the executions observed.",
          "Domain: strings ending in NUL at even length and out-of-range reals excluded; a write returning Err satisfies the statement (non-vacuity is checked: <90% successful in-limit writes => inconclusive).",
